@@ -265,69 +265,69 @@ func ruleF8c(c *Ctx) {
 			toAB[cb.a], toAB[cb.b] = aObj, bObj
 		}
 		for _, cb := range cmpBodies {
-		ast.Inspect(cb.body, func(n ast.Node) bool {
-			as, ok := n.(*ast.AssignStmt)
-			if !ok || len(as.Lhs) != 1 || len(as.Rhs) != 1 {
-				return true
-			}
-			call, ok := as.Rhs[0].(*ast.CallExpr)
-			if !ok {
-				return true
-			}
-			sel, ok := call.Fun.(*ast.SelectorExpr)
-			if !ok || sel.Sel.Name != "GetOutputSize" {
-				return true
-			}
-			if rid, ok := sel.X.(*ast.Ident); ok {
-				if lid, ok := as.Lhs[0].(*ast.Ident); ok {
-					sizeOf[info.Defs[lid]] = toAB[info.Uses[rid]]
+			ast.Inspect(cb.body, func(n ast.Node) bool {
+				as, ok := n.(*ast.AssignStmt)
+				if !ok || len(as.Lhs) != 1 || len(as.Rhs) != 1 {
+					return true
 				}
-			}
-			return true
-		})
+				call, ok := as.Rhs[0].(*ast.CallExpr)
+				if !ok {
+					return true
+				}
+				sel, ok := call.Fun.(*ast.SelectorExpr)
+				if !ok || sel.Sel.Name != "GetOutputSize" {
+					return true
+				}
+				if rid, ok := sel.X.(*ast.Ident); ok {
+					if lid, ok := as.Lhs[0].(*ast.Ident); ok {
+						sizeOf[info.Defs[lid]] = toAB[info.Uses[rid]]
+					}
+				}
+				return true
+			})
 		}
 		sizeRet := false
 		var sizePos, accPos, immPos, validPos token.Pos
 		for _, cb := range cmpBodies {
-		ast.Inspect(cb.body, func(n ast.Node) bool {
-			switch x := n.(type) {
-			case *ast.ReturnStmt:
-				if len(x.Results) < 1 || len(x.Results) > 2 {
-					return true
-				}
-				be, ok := ast.Unparen(x.Results[0]).(*ast.BinaryExpr)
-				if !ok {
-					return true
-				}
-				l, lok := be.X.(*ast.Ident)
-				r, rok := be.Y.(*ast.Ident)
-				if !lok || !rok {
-					return true
-				}
-				lp, rp := sizeOf[info.Uses[l]], sizeOf[info.Uses[r]]
-				if lp == nil || rp == nil {
-					return true
-				}
-				sizeRet = true
-				sizePos = x.Pos()
-				good := (be.Op == token.LSS && lp == aObj && rp == bObj) || (be.Op == token.GTR && lp == bObj && rp == aObj)
-				c.check(good, "F8c", fn+"|smaller size wins", c.L.Pos(x.Pos()), fmt.Sprintf("a must be preferred when size(a) < size(b); the comparator returns %s", types.ExprString(be)))
-			case *ast.AssignStmt:
-				if len(x.Lhs) == 1 {
-					if id, ok := x.Lhs[0].(*ast.Ident); ok {
-						switch {
-						case strings.HasPrefix(id.Name, "validity"):
-							validPos = x.Pos()
-						case strings.HasPrefix(id.Name, "accPreference"):
-							accPos = x.Pos()
-						case strings.HasPrefix(id.Name, "imm8Preference"):
-							immPos = x.Pos()
+			ast.Inspect(cb.body, func(n ast.Node) bool {
+				switch x := n.(type) {
+				case *ast.ReturnStmt:
+					if len(x.Results) < 1 || len(x.Results) > 2 {
+						return true
+					}
+					be, ok := ast.Unparen(x.Results[0]).(*ast.BinaryExpr)
+					if !ok {
+						return true
+					}
+					l, lok := be.X.(*ast.Ident)
+					r, rok := be.Y.(*ast.Ident)
+					if !lok || !rok {
+						return true
+					}
+					lp, rp := sizeOf[info.Uses[l]], sizeOf[info.Uses[r]]
+					if lp == nil || rp == nil {
+						return true
+					}
+					sizeRet = true
+					sizePos = x.Pos()
+					good := (be.Op == token.LSS && lp == aObj && rp == bObj) || (be.Op == token.GTR && lp == bObj && rp == aObj)
+					c.check(good, "F8c", fn+"|smaller size wins", c.L.Pos(x.Pos()), fmt.Sprintf("a must be preferred when size(a) < size(b); the comparator returns %s", types.ExprString(be)))
+				case *ast.AssignStmt:
+					if len(x.Lhs) == 1 {
+						if id, ok := x.Lhs[0].(*ast.Ident); ok {
+							switch {
+							case strings.HasPrefix(id.Name, "validity"):
+								validPos = x.Pos()
+							case strings.HasPrefix(id.Name, "accPreference"):
+								accPos = x.Pos()
+							case strings.HasPrefix(id.Name, "imm8Preference"):
+								immPos = x.Pos()
+							}
 						}
 					}
 				}
-			}
-			return true
-		})
+				return true
+			})
 		}
 		if !sizeRet {
 			c.fail("F8c", fn+"|smaller size wins", c.L.Pos(fd.Pos()), "no `return sizeA < sizeB` on GetOutputSize results")
@@ -382,24 +382,24 @@ func ruleF8c(c *Ctx) {
 		// ModRM field (accumulator form), the immediate's size (imm8 form)
 		defs := map[types.Object]ast.Expr{}
 		for _, cb := range cmpBodies {
-		ast.Inspect(cb.body, func(n ast.Node) bool {
-			if as, ok := n.(*ast.AssignStmt); ok && as.Tok == token.DEFINE && len(as.Lhs) == len(as.Rhs) {
-				for i, l := range as.Lhs {
-					if id, ok := l.(*ast.Ident); ok && info.Defs[id] != nil {
-						defs[info.Defs[id]] = as.Rhs[i]
+			ast.Inspect(cb.body, func(n ast.Node) bool {
+				if as, ok := n.(*ast.AssignStmt); ok && as.Tok == token.DEFINE && len(as.Lhs) == len(as.Rhs) {
+					for i, l := range as.Lhs {
+						if id, ok := l.(*ast.Ident); ok && info.Defs[id] != nil {
+							defs[info.Defs[id]] = as.Rhs[i]
+						}
 					}
 				}
-			}
-			// x, ok := helper(a, b): both names are computed from the call
-			if as, ok := n.(*ast.AssignStmt); ok && as.Tok == token.DEFINE && len(as.Rhs) == 1 && len(as.Lhs) > 1 {
-				for _, l := range as.Lhs {
-					if id, ok := l.(*ast.Ident); ok && info.Defs[id] != nil {
-						defs[info.Defs[id]] = as.Rhs[0]
+				// x, ok := helper(a, b): both names are computed from the call
+				if as, ok := n.(*ast.AssignStmt); ok && as.Tok == token.DEFINE && len(as.Rhs) == 1 && len(as.Lhs) > 1 {
+					for _, l := range as.Lhs {
+						if id, ok := l.(*ast.Ident); ok && info.Defs[id] != nil {
+							defs[info.Defs[id]] = as.Rhs[0]
+						}
 					}
 				}
-			}
-			return true
-		})
+				return true
+			})
 		}
 		calleeDepth := 0
 		var tagsOf func(e ast.Expr, seen map[types.Object]bool, out map[string]bool)
